@@ -220,7 +220,10 @@ class BigMapType(MapType, prim='big_map', args_len=2):
         prev_val = self.get(key, dup=False)
         if prev_val is not None:
             if val is not None:
-                items = [(k, v if k != key else val) for k, v in self.items]
+                if any(k == key for k, _ in self.items):
+                    items = [(k, v if k != key else val) for k, v in self.items]
+                else:  # previous value comes from the context: the new one becomes a local entry
+                    items = sorted(self.items + [(key, val)], key=lambda x: x[0])
             else:  # remove
                 items = [(k, v) for k, v in self.items if k != key]
                 removed_keys.add(key)
